@@ -55,6 +55,9 @@ def run(check: Check) -> None:
         # and an activation object carries nothing from one activation to the next (A-sem history-free)
         activation_semantics(check, cls, ("deactivate-first", "history-free"))
     step_state(check)
+    from .consequent_sem import consequent_semantics
+
+    consequent_semantics(check, rule="H5", aspects=("rule-untouched",))  # firing a rule does not edit the rule
     restart(check)
     from . import c12
     from ..report import FilteredCheck
